@@ -153,7 +153,7 @@ def possible_kinds(prog):
 
 def tree_stats(nodes, acc=None, path=()):
     """from the recorded structure: per provider the number of consumers that injected from it"""
-    acc = acc if acc is not None else {"hits": {}, "provs": 0, "comps": 0, "deferred": 0, "shadow": 0, "extract": 0}
+    acc = acc if acc is not None else {"hits": {}, "provs": 0, "comps": 0, "deferred": 0, "shadow": 0, "extract": 0, "inj2": 0}
     for n in nodes:
         if n.kind == "prov":
             acc["provs"] += 1
@@ -164,6 +164,7 @@ def tree_stats(nodes, acc=None, path=()):
         else:
             acc["comps"] += 1
             acc["deferred"] += 0 if n.root else 1
+            acc["inj2"] += len(n.inj2)
             for r in n.results:
                 if r[1] == "hit":
                     acc["hits"][r[3]] = acc["hits"].get(r[3], 0) + 1
@@ -210,20 +211,52 @@ def describe(prog):
             "components": {n: {"template": G.d_tpls(cd["tpl"]), "data": cd["data"]} for n, cd in prog["lib"]}}
 
 
-def render_recorded(prog, dynamic=False):
+class _NoProvider:
+    pass
+
+
+_SENT = _NoProvider()
+
+
+def rehook_attrs(cname, cd):
+    """on_render_before of a generated component: inject every key of its get_context_data once more (with a default), i.e.
+    in the deferred phase, when the provider around the component tag may have exited long ago"""
+    injects = [d for _, d in cd["data"] if d[0] == "inject"]
+    if not injects:
+        return {}
+
+    def on_render_before(self, context, template):
+        for d in injects:
+            self.inject(d[1], _SENT)
+    return {"on_render_before": on_render_before}
+
+
+def render_page(prog, dynamic=False, rehook=False):
+    import djsetup
+    from django.template import Context, Template
+    with djsetup.components_settings(context_behavior=prog["mode"]):
+        classes, cleanup = R.build(prog, dynamic, extra_attrs=rehook_attrs if rehook else None)
+        try:
+            src = G.d_tpls(prog["page"], dynamic)
+            return R.outcome_of(lambda: Template(src).render(Context(dict(prog["ctx"]))))
+        finally:
+            cleanup()
+
+
+def render_recorded(prog, dynamic=False, rehook=False):
     rec = U.RECORDER
     rec.reset()
     init = rec.tables()
-    o = R.render_page(prog, dynamic=dynamic)
+    o = render_page(prog, dynamic=dynamic, rehook=rehook)
     return o, init, rec.tables(), list(rec.events), list(rec.roots)
 
 
-def run_one(cx, label, prog, dynamic=False, keep_tables=False, count=True):
+def run_one(cx, label, prog, dynamic=False, keep_tables=False, count=True, rehook=False):
     """renders prog once; applies the direct oracles; queues the Coq cases. Returns the outcome."""
     chk = cx.chk
     rec = U.RECORDER
-    o, init, final, events, roots = render_recorded(prog, dynamic)
-    replay = {"label": label, "program": prog, "dynamic": dynamic, "source": describe(prog), "implementation": o}
+    o, init, final, events, roots = render_recorded(prog, dynamic, rehook)
+    replay = {"label": label, "program": prog, "dynamic": dynamic, "rehook": rehook, "source": describe(prog), "implementation": o}
     variant = "dynamic" if dynamic else "page"
     # unexpected exception classes / hangs
     if o[0] == "err" and o[1].startswith("other:"):
@@ -235,7 +268,7 @@ def run_one(cx, label, prog, dynamic=False, keep_tables=False, count=True):
                  "inject() did not return the data of the nearest enclosing {%% provide %%} of the rendered structure: %r" % (bad[:3],),
                  dict(replay, mismatches=bad[:5], structure=[n.to_obj() for n in roots]))
     # (O2) the whole structure and every inject() value vs the oracle on the program tree
-    exp = U.PyRef(prog).run()
+    exp = U.PyRef(prog, rehook=rehook).run()
     if not dynamic:
         if o[0] == "ok" and exp[0] == "ok":
             got, want = U.canon_recorded(roots), U.canon_expected(exp[2])
@@ -268,8 +301,8 @@ def run_one(cx, label, prog, dynamic=False, keep_tables=False, count=True):
         st = tree_stats(roots)
         nontriv = o[0] == "ok" and any(v >= 2 for v in st["hits"].values())
         feats = G.features(prog)
-        small = len(G.d_tpls(prog["page"])) < 260 and sum(len(G.d_tpls(cd["tpl"])) for _, cd in prog["lib"]) < 500
-        chk.count(json.dumps([prog, dynamic], sort_keys=True, default=list), nontriv,
+        small = len(G.d_tpls(prog["page"])) < 420 and sum(len(G.d_tpls(cd["tpl"])) for _, cd in prog["lib"]) < 900
+        chk.count(json.dumps([prog, dynamic, rehook], sort_keys=True, default=list), nontriv,
                   kind="%s/%s/%s" % (prog["mode"], variant, "err" if o[0] == "err" else "ok"),
                   sample={"label": label, "mode": prog["mode"], "page": G.d_tpls(prog["page"]),
                           "components": {n: G.d_tpls(cd["tpl"]) for n, cd in prog["lib"] if any(t[0] == "comp" and t[1] == n for t in all_nodes(prog))},
@@ -283,6 +316,7 @@ def run_one(cx, label, prog, dynamic=False, keep_tables=False, count=True):
         d["providers-shadowing-same-key"] += st["shadow"]
         d["providers-with->=2-consumers"] += sum(1 for v in st["hits"].values() if v >= 2)
         d["inject-hits"] += sum(st["hits"].values())
+        d["inject-in-deferred-phase"] += st["inj2"]
         for f in feats:
             if f.startswith("provide") or f in ("inject", "comp-only", "comp-in-loop", "slot-in-fill"):
                 d["feature:" + f] += 1
@@ -380,14 +414,14 @@ def run(tier, seed):
         pool.append((label, prog, o))
     flush(cx, "corpus")
     fam = list(family_programs())
-    for label, prog in fam:
-        o = run_one(cx, label, prog)
+    for i, (label, prog) in enumerate(fam):
+        o = run_one(cx, label, prog, rehook=i % 2 == 1)
         pool.append((label, prog, o))
     flush(cx, "fam")
     n = 1800 if tier == "thorough" else 260
     for mode in ("isolated", "django"):
         for i, (label, prog) in enumerate(gen_programs(chk, n, mode)):
-            o = run_one(cx, label, prog)
+            o = run_one(cx, label, prog, rehook=i % 2 == 1)
             pool.append((label, prog, o))
             if i % 3 == 0:
                 od = run_one(cx, label + "/dynamic", prog, dynamic=True)
@@ -442,9 +476,9 @@ def replay(path):
             print("component", n, "data", cd["data"])
             print("   ", G.d_tpls(cd["tpl"]))
         print("page:", G.d_tpls(prog["page"]))
-        o, init, final, events, roots = render_recorded(prog, dynamic=bool(case.get("dynamic")))
+        o, init, final, events, roots = render_recorded(prog, dynamic=bool(case.get("dynamic")), rehook=bool(case.get("rehook")))
         print("implementation:", o)
-        print("program-tree oracle:", U.PyRef(prog).run()[:2])
+        print("program-tree oracle:", U.PyRef(prog, rehook=bool(case.get("rehook"))).run()[:2])
         print("inject() vs nearest recorded provider:", check_recorded_nearest(roots) or "all equal")
         for e, t in events:
             print("   ", e, t)
